@@ -199,7 +199,7 @@ def _run_case(case, st):
 def run_case(case, st):
     # exe() is cached for the life of the object by the statement itself; a process that is made to vanish inside the case
     # leaves the object of later cases in a state the case did not set up
-    return LongLived.both(_run_case, case, st, skip=lambda c: (c[0] == "link" and (c[1] == "exe" or c[3] == "gone")) or c[0] == "name")
+    return LongLived.both(_run_case, case, st, skip=lambda c: (c[0] == "link" and (c[1] == "exe" or c[3] == "gone")) or c[0] == "name", repoint=True)
 
 
 def worker(chunk):
